@@ -945,8 +945,8 @@ impl Monitor for M {
             Phase::new("boundary", boundary_table().len() as u64)
                 .batch(8)
                 .exhaustive("every op kind x every operand at every width boundary value (see rule)"),
-            Phase::new("seq", tier.pick(200_000, 20_000_000)).batch(256),
-            Phase::new("bytes", tier.pick(300_000, 30_000_000)).batch(512),
+            Phase::new("seq", tier.pick(300_000, 20_000_000)).batch(256),
+            Phase::new("bytes", tier.pick(500_000, 30_000_000)).batch(512),
         ]
     }
 
